@@ -160,6 +160,9 @@ func tryBlumPrime(rand io.Reader) *saferith.Nat {
 // p, q are safe primes ((p - 1) / 2 is also prime), and Blum primes (p = 3 mod 4)
 // n = pq.
 func Paillier(rand io.Reader, pl *pool.Pool) (p, q *saferith.Nat) {
+	if p, q, ok := verifPrimes(); ok {
+		return p, q
+	}
 	reader := pool.NewLockedReader(rand)
 	results := pl.Search(2, func() interface{} {
 		q := tryBlumPrime(reader)
